@@ -1469,10 +1469,6 @@ class StorageBackendBase(StorageBackend, ABC):
         if self.read_only:
             return
 
-        if self._memory_cache:
-            # Write through to memory cache
-            self._memory_cache.put(memento, result, has_result=True)
-
         # Write data
         result_type = memento.invocation_metadata.result_type
         content_key = self.codec.store(
@@ -1484,6 +1480,12 @@ class StorageBackendBase(StorageBackend, ABC):
 
         # Write metadata
         self._metadata_source.put_memento(memento)
+
+        if self._memory_cache:
+            # Write through to memory cache, once the result is in the store: a result whose
+            # write failed must not count as memoized, and a cached memento must name the
+            # stored data in case the value is evicted
+            self._memory_cache.put(memento, result, has_result=True)
 
     def read_metadata(
         self,
